@@ -21,6 +21,10 @@ type extractor struct {
 var extractors = []extractor{
 	{"Funcs", genFuncs},
 	{"ErrorTable", genErrorTable},
+	{"Iface", genIface},
+	{"Select", genSelect},
+	{"Sub", genSub},
+	{"WrapRO", genWrapRO},
 }
 
 func main() {
